@@ -23,7 +23,7 @@ func genMapCase(t *rapid.T) MapCase {
 	gop := rapid.Custom(func(t *rapid.T) MOp {
 		return MOp{Kind: rapid.SampledFrom(mopKinds).Draw(t, "k"), A: rapid.IntRange(0, 600).Draw(t, "a"), B: rapid.IntRange(0, 1).Draw(t, "b"), I: rapid.IntRange(0, 2).Draw(t, "slot")}
 	})
-	c.Ops = rapid.SliceOfN(gop, 0, 50).Draw(t, "ops")
+	c.Ops = rapid.SliceOfN(gop, 0, vk.MaxOps(t, 50, 400)).Draw(t, "ops")
 	if !c.Zero && rapid.IntRange(0, 2).Draw(t, "structured") > 0 {
 		// prefix: a few sets and a delete; suffix: seek to an absent inner key, then prev
 		var pre []MOp
